@@ -128,7 +128,7 @@ func Run(c *core.Ctx, replay string) (*core.Result, error) {
 		rng := rand.New(rand.NewSource(c.Seed))
 		rounds := 1
 		if c.Thorough() {
-			rounds = 12
+			rounds = 80
 		}
 		for r := 0; r < rounds; r++ {
 			models = append(models, sqlprog.Compose(u, rng, 2+rng.Intn(4), len(models)+1)...)
